@@ -858,7 +858,7 @@ class TimedCompartment(Compartment):
         self.t = tvec
         self.dt = dt
         assert np.all(self.parameter.vals == self.parameter.vals[0]), "Duration parameter value cannot vary over time"
-        duration = self.parameter.vals[0] * self.parameter.timescale * self.parameter.scale_factor
+        duration = self.parameter.vals[0] * self.parameter.timescale  # nb. `vals` already includes the calibration scale factor
         self._vals = np.empty((_n_duration_bins(duration, dt), tvec.size), order="F")  # Fortran/column-major order should be faster for summing over lags to get `vals`
         self._vals.fill(np.nan)
 
@@ -1519,7 +1519,7 @@ class TimedLink(Link):
             # Note that the keyring size calculation is duplicated from TimedCompartment, this could be separated into a function if it is needed any more often than this
             parameter = self.pop.par_lookup[self.source.duration_group]
             assert np.all(parameter.vals == parameter.vals[0]), "Duration parameter value cannot vary over time"
-            duration = parameter.vals[0] * parameter.timescale * parameter.scale_factor
+            duration = parameter.vals[0] * parameter.timescale  # nb. `vals` already includes the calibration scale factor
             self._vals = np.empty((_n_duration_bins(duration, dt), tvec.size), order="F")  # Fortran/column-major order should be faster for summing over lags to get `vals`
         self._vals.fill(np.nan)
 
